@@ -20,7 +20,7 @@ FAMILY = {
 }
 
 MC_ACTIONS = ['Begin', 'Abort', 'Commit', 'SGet', 'SetSTok', 'SUnget', 'SWriteEntity', 'CGet', 'CMk', 'SetCTok',
-              'CDisAll', 'DGet', 'SetDTok', 'DAdd', 'DRemove', 'DGetState', 'DWriteEntity', 'DNewEntity', 'MutateCopy']
+              'CDisAll', 'CEntUpdate', 'CEntNew', 'CEntDelete', 'DGet', 'SetDTok', 'DAdd', 'DRemove', 'DGetState', 'DWriteEntity', 'DNewEntity', 'MutateCopy']
 
 
 class C03Replayer(MdibReplayer):
